@@ -88,12 +88,12 @@ VARIABLES at,      \* [Hosts -> <<s,p>>]
           mac,     \* multi: [Hosts -> <<s,p>>]              l2_multi.mac_map, None = not learned
           flows,   \* [Switches -> set of flows]
           bufs,    \* [Switches -> 0..NBuf] packet buffers left occupied
-          hold,    \* multi: flood hold-down after the switches connected still active
+          since,   \* multi: seconds since the switches connected, saturating at HoldDown + 1 (flood hold-down)
           moved,   \* hosts that changed their attachment point (history, for the properties)
           seen,    \* [Switches -> [Hosts -> 0..NP]] ideal-bridge learning: port of the latest arrival (history)
           last,    \* observation of the last action
           hist     \* all observations (export only)
-svars == <<at, up, adj, tab, mac, flows, bufs, hold, moved, seen>>
+svars == <<at, up, adj, tab, mac, flows, bufs, since, moved, seen>>
 vars  == <<svars, last, hist>>
 view  == <<svars, last>>
 viewE == svars
@@ -109,6 +109,8 @@ HubFlow == MkFlow(0, 0, 0, AllShapes, FLOOD, 0, 0)
 
 Frame(src, dst, sh) == [src |-> src, dst |-> dst, sh |-> sh]
 Covers(fl, i, f) == /\ fl.inp \in {0, i} /\ fl.src \in {0, f.src} /\ fl.dst \in {0, f.dst} /\ f.sh \in fl.shs
+
+hold == since <= HoldDown      \* Switch.is_holding_down: not (now - connected_at > FLOOD_HOLDDOWN)
 
 \* ---- the switch
 FloodPorts(s, i) == {p \in Ports : p # i /\ <<s, p>> \notin NoFlood}
@@ -241,7 +243,8 @@ Walk(w, f, fuel) ==
 NoObs == [a |-> "Init", args |-> [x |-> 0], exp |-> [x |-> 0], full |-> {}]
 Log(a, args, exp, full) ==
   /\ last' = [a |-> a, args |-> args, exp |-> exp, full |-> full]
-  /\ hist' = Append(hist, [a |-> a, args |-> args, exp |-> exp])
+  /\ hist' = Append(hist, [a |-> a, args |-> args, exp |-> exp,
+                           tags |-> {hp.via : hp \in full} \cup {hp.dev : hp \in full}])
 Brief(hops) == {[s |-> hp.s, i |-> hp.i, pktin |-> hp.pktin, out |-> hp.out, icmp |-> hp.icmp] : hp \in hops}
 
 Init == /\ at = InitAt
@@ -250,7 +253,7 @@ Init == /\ at = InitAt
         /\ mac = [h \in Hosts |-> None]
         /\ flows = [s \in Switches |-> IF Comp = "hub_pro" THEN {HubFlow} ELSE {}]   \* hub._handle_ConnectionUp
         /\ bufs = [s \in Switches |-> 0]
-        /\ hold = (Comp = "multi")
+        /\ since = IF Comp = "multi" THEN 0 ELSE HoldDown + 1
         /\ moved = {}
         /\ seen = [s \in Switches |-> [h \in Hosts |-> 0]]
         /\ last = NoObs /\ hist = <<>>
@@ -264,7 +267,7 @@ Send(h, dst, sh) ==
                 hops |-> {}, todo |-> <<at[h]>>]
          w  == Walk(w0, f, MaxHops)
      IN /\ flows' = w.flows /\ tab' = w.tab /\ mac' = w.mac /\ bufs' = w.bufs /\ seen' = w.seen
-        /\ UNCHANGED <<at, up, adj, hold, moved>>
+        /\ UNCHANGED <<at, up, adj, since, moved>>
         /\ Log("Send", [h |-> h, dst |-> dst, sh |-> sh],
                [hops |-> Brief(w.hops), tbls |-> Tbls(w.flows), bufs |-> w.bufs,
                 storm |-> IF w.todo = <<>> THEN 0 ELSE 1], w.hops)
@@ -274,7 +277,7 @@ Move(h, sp) ==
   /\ sp # at[h]
   /\ at' = [at EXCEPT ![h] = sp]
   /\ moved' = moved \cup {h}
-  /\ UNCHANGED <<up, adj, tab, mac, flows, bufs, hold, seen>>
+  /\ UNCHANGED <<up, adj, tab, mac, flows, bufs, since, seen>>
   /\ Log("Move", [h |-> h, s |-> sp[1], p |-> sp[2]], [x |-> 0], {})
 
 Older(fl, d) == [fl EXCEPT !.age = Min(@ + d, Cap), !.idle = Min(@ + d, Cap)]
@@ -283,19 +286,19 @@ Expired(fl) == (fl.ito > 0 /\ fl.idle > fl.ito) \/ (fl.hto > 0 /\ fl.age > fl.ht
 Tick(d) ==
   /\ adj = up
   /\ flows' = [s \in Switches |-> {fl \in {Older(x, d) : x \in flows[s]} : ~Expired(fl)}]
-  /\ hold' = (hold /\ d <= HoldDown)
+  /\ since' = Min(since + d, HoldDown + 1)
   /\ UNCHANGED <<at, up, adj, tab, mac, bufs, moved, seen>>
   /\ Log("Tick", [d |-> d], [tbls |-> Tbls(flows'), bufs |-> bufs], {})
 
 Cut(l) ==
   /\ l \in up \cap Cuts
   /\ up' = up \ {l}
-  /\ UNCHANGED <<at, adj, tab, mac, flows, bufs, hold, moved, seen>>
+  /\ UNCHANGED <<at, adj, tab, mac, flows, bufs, since, moved, seen>>
   /\ Log("Cut", [s |-> l[1], p |-> l[2]], [x |-> 0], {})
 Restore(l) ==
   /\ l \in Cuts \ up
   /\ up' = up \cup {l}
-  /\ UNCHANGED <<at, adj, tab, mac, flows, bufs, hold, moved, seen>>
+  /\ UNCHANGED <<at, adj, tab, mac, flows, bufs, since, moved, seen>>
   /\ Log("Restore", [s |-> l[1], p |-> l[2]], [x |-> 0], {})
 
 \* DetectTime seconds pass: discovery times out the cut cables and finds the restored ones; every LinkEvent
@@ -306,7 +309,7 @@ Detect ==
   /\ adj' = up
   /\ flows' = [s \in Switches |-> {}]
   /\ mac' = [h \in Hosts |-> IF \E l \in up \ adj : mac[h] \in EndsOf(l) THEN None ELSE mac[h]]
-  /\ hold' = FALSE
+  /\ since' = HoldDown + 1
   /\ UNCHANGED <<at, up, tab, bufs, moved, seen>>
   /\ Log("Detect", [x |-> 0], [tbls |-> Tbls(flows'), adj |-> up, bufs |-> bufs], {})
 
@@ -352,7 +355,7 @@ TypeOK ==
   /\ mac \in [Hosts -> {None} \cup (Switches \X Ports)]
   /\ \A s \in Switches : \A fl \in flows[s] : FlowOK(fl)
   /\ bufs \in [Switches -> 0..NBuf]
-  /\ hold \in BOOLEAN /\ moved \subseteq Hosts
+  /\ since \in 0..(HoldDown + 1) /\ moved \subseteq Hosts
 
 \* a frame never meets two cached flows (the table's tie-breaking is not relied upon)
 Overlap(x, y) == /\ (x.inp = 0 \/ y.inp = 0 \/ x.inp = y.inp) /\ (x.src = 0 \/ y.src = 0 \/ x.src = y.src)
